@@ -342,5 +342,5 @@ func TestC02(t *testing.T) {
 	if !regress(t, "C02") {
 		return
 	}
-	c02Sub.rapidCheck(t, pickTier(6000, 40000), c02Gen)
+	c02Sub.rapidCheck(t, pickTier(6000, 80000), c02Gen)
 }
